@@ -1,5 +1,5 @@
 import GeosModel.Proofs.Num.FmtLemmas
-import GeosModel.Model.Num.Parse
+import GeosModel.Proofs.Num.ExactLemmas
 /-!
 # C10 — written WKT is re-readable and equals the input to stated precision: the number formatter
 
@@ -171,5 +171,157 @@ theorem fmt_special_reread :
     strtod "NaN".toList = some nanBitsNat ∧ strtod "Infinity".toList = some INF ∧
     strtod "-Infinity".toList = some (INF + 2 ^ 63) ∧ strtod "0".toList = some 0 := by
   refine ⟨by decide, by decide, by decide, by decide⟩
+
+/-! ## the value that is written -/
+
+/-- what `fmt_value` and `fmt_exact` say the text denotes: the shortest decimal `k·10^q` of the double, rounded
+half-even — in positional notation to the (adjusted) number of decimals, in scientific notation to
+`precision` decimals of the mantissa `d.ddd…` -/
+def writtenDec (bits precision : Nat) : Nat × Int :=
+  let k := (shortest (absBits bits)).1
+  let q := (shortest (absBits bits)).2
+  match notationOf bits with
+  | .sci => ((rheDec k (1 - (dlen k : Int)) precision).1,
+             (rheDec k (1 - (dlen k : Int)) precision).2 + (q + (dlen k : Int) - 1))
+  | _ => rheDec k q (adjPrecision (absBits bits) precision)
+
+/-- **fmt_value.**  For every finite non-zero double and every precision, the text re-reads (exactly, as a decimal)
+as the shortest round-trip decimal of the double rounded half-even at the requested place; the minus sign is
+dropped exactly when that rounds to zero.  Together with `rheDec_close` (half a unit of the last place)
+and `shortest_in_interval` (half an ulp) this is the "stated precision" clause of the property. -/
+theorem fmt_value (bits precision : Nat) (h1 : 1 ≤ absBits bits) (h2 : absBits bits < INF) :
+    ∃ n e, parseNum (writeTrimmedNumber bits precision) = some (.dec (signOf bits && decide (n ≠ 0)) n e) ∧
+      SameDec (n, e) (writtenDec bits precision) := by
+  obtain ⟨_, k1, k17, _, _⟩ := shortest_spec (absBits bits) h1
+  unfold writeTrimmedNumber writtenDec
+  cases hn : notationOf bits with
+  | special =>
+    exfalso
+    have := (special_iff bits).mp (notation_special bits hn)
+    omega
+  | sci =>
+    simp only
+    obtain ⟨hs, _, _⟩ := notation_sci bits hn
+    unfold d2sExp
+    rw [hs]
+    simp only [Bool.false_eq_true, if_false]
+    rw [decimalLength17_eq k17]
+    obtain ⟨ep, es⟩ := expSuffix_parse _ (sciExp_range (absBits bits) h1 h2)
+    obtain ⟨n, fc, sd, hp⟩ := toCharsFixed_parse (shortest (absBits bits)).1 (1 - (dlen (shortest (absBits bits)).1 : Int))
+      (signOf bits) precision k1 k17 _ es
+    rw [ep] at hp
+    refine ⟨n, _, hp, ?_⟩
+    have := sameDec_shift ((shortest (absBits bits)).2 + (dlen (shortest (absBits bits)).1 : Int) - 1) sd
+    simp only at this
+    rw [Int.add_comm (-(fc : Int))] at this
+    exact this
+  | fixed =>
+    simp only
+    obtain ⟨hs, _, _⟩ := notation_fixed bits hn
+    unfold d2sFixed
+    rw [hs]
+    simp only [Bool.false_eq_true, if_false]
+    obtain ⟨n, fc, sd, hp⟩ := toCharsFixed_parse (shortest (absBits bits)).1 (shortest (absBits bits)).2
+      (signOf bits) (adjPrecision (absBits bits) precision) k1 k17 [] (by intro c r h; cases h)
+    rw [List.append_nil] at hp
+    refine ⟨n, _, hp, ?_⟩
+    simpa [parseExp] using sd
+
+/-- the rounding of `fmt_value` moves the value by at most half a unit of the last place kept -/
+theorem fmt_value_half_unit (k : Nat) (q : Int) (p : Nat) (h : (p : Int) < -q) :
+    (rheDec k q p).2 = -(p : Int) ∧
+    2 * ((rheDec k q p).1 * 10 ^ (-q - (p : Int)).toNat) ≤ 2 * k + 10 ^ (-q - (p : Int)).toNat ∧
+    2 * k ≤ 2 * ((rheDec k q p).1 * 10 ^ (-q - (p : Int)).toNat) + 10 ^ (-q - (p : Int)).toNat :=
+  rheDec_close k q p h
+
+/-- the shortest decimal lies in the rounding interval of the double (within half an ulp, end points only for
+even mantissas): it re-reads as the same double -/
+theorem shortest_roundtrip (u : Nat) (h1 : 1 ≤ u) (h2 : u < INF) :
+    roundNE (.dec false (shortest u).1 (shortest u).2) = u := by
+  have := roundNE_of_interval u (shortest u).1 (shortest u).2 false h1 h2
+    (by have := shortest_pos u h1; omega) (shortest_in_interval u h1)
+  simpa using this
+
+/-! ## exact round trip -/
+
+/-- no digit of the shortest decimal is cut off by the requested precision -/
+def keepsAllDigits (bits precision : Nat) : Prop :=
+  match notationOf bits with
+  | .sci => dlen (shortest (absBits bits)).1 ≤ precision + 1
+  | _ => -(shortest (absBits bits)).2 ≤ (adjPrecision (absBits bits) precision : Int)
+
+theorem bits_decomp (bits : Nat) (hb : bits < 2 ^ 64) :
+    absBits bits + (if signOf bits = true then 2 ^ 63 else 0) = bits := by
+  unfold absBits signOf
+  by_cases hs : bits / 2 ^ 63 % 2 = 1 <;> simp [hs] <;> omega
+
+/-- when nothing is cut off, the written decimal is the shortest decimal itself -/
+theorem writtenDec_of_keeps (bits precision : Nat) (hk : keepsAllDigits bits precision) :
+    writtenDec bits precision = ((shortest (absBits bits)).1, (shortest (absBits bits)).2) := by
+  unfold writtenDec keepsAllDigits at *
+  cases hn : notationOf bits with
+  | sci =>
+    rw [hn] at hk
+    simp only at hk ⊢
+    unfold rheDec
+    rw [if_neg (by omega)]
+    simp only
+    congr 1; omega
+  | special => rw [hn] at hk; simp only at hk ⊢; unfold rheDec; rw [if_neg (by omega)]
+  | fixed => rw [hn] at hk; simp only at hk ⊢; unfold rheDec; rw [if_neg (by omega)]
+
+/-- **fmt_exact.**  Whenever the precision keeps every digit of the shortest decimal, the written text re-reads
+(correctly rounded `strtod`) as exactly the same 64-bit pattern, sign included. -/
+theorem fmt_exact (bits precision : Nat) (hb : bits < 2 ^ 64) (h1 : 1 ≤ absBits bits) (h2 : absBits bits < INF)
+    (hk : keepsAllDigits bits precision) : strtod (writeTrimmedNumber bits precision) = some bits := by
+  obtain ⟨n, e, hp, sd⟩ := fmt_value bits precision h1 h2
+  have hin := shortest_in_interval (absBits bits) h1
+  have k1 := shortest_pos (absBits bits) h1
+  rw [writtenDec_of_keeps bits precision hk] at sd
+  have hn0 : n ≠ 0 := by
+    intro h0
+    unfold SameDec at sd
+    simp only [h0, Nat.zero_mul] at sd
+    have hpos := pow10_pos ((shortest (absBits bits)).2 - e).toNat
+    rcases Nat.mul_eq_zero.mp sd.symm with h | h
+    · rw [h] at k1; cases k1
+    · rw [h] at hpos; cases hpos
+  have hin' : inIvl (ivl (absBits bits)) e n = true := by
+    rw [inIvl_sameDec _ n _ e _ sd]; exact hin
+  unfold strtod
+  rw [hp]
+  simp only [Option.map_some, hn0, ne_eq, not_false_eq_true, decide_true, Bool.and_true]
+  rw [roundNE_of_interval (absBits bits) n e (signOf bits) h1 h2 hn0 hin', bits_decomp bits hb]
+
+/-- scientific notation: 16 decimals of the mantissa (17 significant digits) always suffice -/
+theorem fmt_exact_sci (bits precision : Nat) (hb : bits < 2 ^ 64) (hn : notationOf bits = .sci)
+    (hp : 16 ≤ precision) : strtod (writeTrimmedNumber bits precision) = some bits := by
+  obtain ⟨_, h1, h2⟩ := notation_sci bits hn
+  apply fmt_exact bits precision hb h1 h2
+  unfold keepsAllDigits
+  rw [hn]
+  have := dlen_le_of_lt (shortest_lt (absBits bits) h1) (by decide : 1 ≤ 17)
+  simp only; omega
+
+/-- positional notation (`1e-4 ≤ |x| < 1e17`): 21 decimals always suffice -/
+theorem fmt_exact_fixed (bits precision : Nat) (hb : bits < 2 ^ 64) (hn : notationOf bits = .fixed)
+    (hp : 21 ≤ precision) : strtod (writeTrimmedNumber bits precision) = some bits := by
+  obtain ⟨_, h1, h2⟩ := notation_fixed bits hn
+  have hu : 1 ≤ absBits bits := by unfold bits1em4 at h1; omega
+  have hi : absBits bits < INF := by unfold bits1e17 at h2; unfold INF; omega
+  apply fmt_exact bits precision hb hu hi
+  unfold keepsAllDigits
+  rw [hn]
+  simp only
+  have hadj : precision ≤ adjPrecision (absBits bits) precision := by
+    unfold adjPrecision; split <;> omega
+  by_cases hq : (shortest (absBits bits)).2 < 0
+  · have := fixed_frac_places (absBits bits) h1 hq
+    omega
+  · omega
+
+/-- non-vacuity: the hypotheses of `fmt_exact` are satisfiable (1.5 at precision 1) -/
+example : 0x3ff8000000000000 < 2 ^ 64 ∧ 1 ≤ absBits 0x3ff8000000000000 ∧ absBits 0x3ff8000000000000 < INF := by
+  decide
 
 end GeosModel.Num
